@@ -26,6 +26,12 @@ func (s *ByteBlockSource) Size() uint64 {
 	return uint64(len(s.Source))
 }
 func (s *ByteBlockSource) ReadBlock(off uint64, sz int) ([]byte, error) {
+	if off >= uint64(len(s.Source)) {
+		return nil, io.EOF
+	}
+	if off+uint64(sz) > uint64(len(s.Source)) {
+		sz = int(uint64(len(s.Source)) - off)
+	}
 	return s.Source[off : off+uint64(sz)], nil
 }
 
@@ -116,6 +122,9 @@ func NewReader(src BlockSource, name string) (*Reader, error) {
 	if err != nil {
 		return nil, err
 	}
+	if len(headBlock) < headerSize(2)+1 {
+		return nil, fmtError
+	}
 	if bytes.Compare(headBlock[:4], magic[:]) != 0 {
 		return nil, fmt.Errorf("reftable: got magic %q, want %q", headBlock[:4], magic)
 	}
@@ -123,6 +132,10 @@ func NewReader(src BlockSource, name string) (*Reader, error) {
 	version := int(headBlock[4])
 	if version != 1 && version != 2 {
 		return nil, fmt.Errorf("reftable: unsupported version %d", version)
+	}
+
+	if src.Size() < uint64(headerSize(version)+footerSize(version)) {
+		return nil, fmtError
 	}
 
 	r := &Reader{
@@ -135,6 +148,9 @@ func NewReader(src BlockSource, name string) (*Reader, error) {
 	footBlock, err := src.ReadBlock(r.size, footerSize(version))
 	if err != nil {
 		return nil, err
+	}
+	if len(footBlock) < footerSize(version) {
+		return nil, fmtError
 	}
 
 	if 0 != bytes.Compare(headBlock[:headerSize(version)], footBlock[:headerSize(version)]) {
@@ -155,6 +171,11 @@ func NewReader(src BlockSource, name string) (*Reader, error) {
 		return nil, err
 	}
 
+	switch r.header.HashID {
+	case SHA1ID, SHA256ID:
+	default:
+		return nil, fmt.Errorf("reftable: unknown hash ID %q", r.header.HashID)
+	}
 	r.hashSize = r.header.HashID.Size()
 	r.header.BlockSize &= (1 << 24) - 1
 
